@@ -16,6 +16,8 @@ C08 (continued) — gaps of `Props/C08.lean` closed by work package c08.
       `denoteId_regroup_input/_output` (the regrouping laws of `C08` on expressions, loop form)
 * (d) dot (executable loop form `Denote.denoteDot`): tie `denoteDot_fun_agree`; output permutation incl. definedness
       `denote_dot_permute_output`; parentheses on the output `denote_dot_regroup_output`
+* (d) elementwise (loop form `Denote.denoteElementwise`): output permutation incl. definedness
+      `denote_elementwise_permute_output`
 * (c) concatenations: `denoteId_fun_agree_general` (loop form = functional form `Denote.denoteIdFunG` for *all* solved
       expressions), `denoteId_rename_general` (consistent renaming, concatenations included)
 -/
@@ -509,6 +511,54 @@ example :
         ∃ plan, planInstr [shapeOf eo] (.transpose 0 [2, 0, 1]) = .ok plan ∧ runPlan symAlg [T] plan = T' :=
   fun T h => denote_dot_permute_output _ _ _ [2, 0, 1] T (by decide +kernel) (by decide +kernel) (by decide +kernel)
     (by decide +kernel) rfl (by decide +kernel) h
+
+/-! ### (d) Elementwise operations: permuting the output expression -/
+
+theorem okOpt_denoteElementwise (f : String) (exprsIn : List Expr) (eo : Expr) (hin : Expr.concatFreeL exprsIn = true)
+    (heo : eo.concatFree = true) :
+    okOpt (denoteElementwise f exprsIn eo)
+      = (ewCells f (exprsIn.map (fun e => (rootDims e, shapeOf e))) (rootDims eo) (shapeOf eo)).map
+          (fun cs => (⟨shapeOf eo, cs⟩ : Tensor Cell)) := by
+  rw [denoteElementwise_fun_agree f exprsIn eo hin heo]
+  unfold denoteElementwiseFun
+  simp only [hin, heo, Bool.and_self, Bool.not_true, Bool.false_eq_true, if_false]
+  cases ewCells f (exprsIn.map (fun e => (rootDims e, shapeOf e))) (rootDims eo) (shapeOf eo) <;> rfl
+
+/-- **Reordering the axes of the output expression of an elementwise operation permutes the result's dimensions
+accordingly**, including definedness (any number of inputs, executable loop form `Denote.denoteElementwise`). -/
+theorem denote_elementwise_permute_output (f : String) (exprsIn : List Expr) (eo eo' : Expr) (perm : List Nat)
+    (T : Tensor Cell)
+    (hin : Expr.concatFreeL exprsIn = true) (heo : eo.concatFree = true) (heo' : eo'.concatFree = true)
+    (hperm : isPermOf perm (rootDims eo).length = true) (hp : permuteL perm (rootDims eo) = some (rootDims eo'))
+    (hcons : consistentB (Dim.leavesL (rootDims eo)) = true)
+    (h : okOpt (denoteElementwise f exprsIn eo) = some T) :
+    ∃ T', okOpt (denoteElementwise f exprsIn eo') = some T' ∧
+      ∃ plan, planInstr [shapeOf eo] (.transpose 0 perm) = .ok plan ∧ runPlan symAlg [T] plan = T' := by
+  rw [okOpt_denoteElementwise f exprsIn eo hin heo, ewCells_eq_genCells] at h
+  rw [okOpt_denoteElementwise f exprsIn eo' hin heo', ewCells_eq_genCells]
+  cases hcs : genCells (ewX f (exprsIn.map (fun e => (rootDims e, shapeOf e)))) (rootDims eo) (shapeOf eo) with
+  | none => simp [hcs] at h
+  | some cs =>
+    simp only [hcs, Option.map_some, Option.some.injEq] at h
+    subst h
+    obtain ⟨cs', h', plan, hplan, hrun⟩ := genCells_permute_output_full (ewX_getInvariant f _)
+      hperm hp (rootDims_concatFree heo) (consistentB_spec hcons) hcs
+    have h'' : genCells (ewX f (exprsIn.map (fun e => (rootDims e, shapeOf e)))) (rootDims eo') (shapeOf eo') = some cs' := h'
+    exact ⟨⟨shapeOf eo', cs'⟩, by rw [h'']; rfl, plan, hplan, hrun⟩
+
+/-- Non-vacuity: `add: a (b c), c a -> c a b` (a = b = 2, c = 1) towards the permuted output `b c a`. -/
+example :
+    let a := Expr.axis "a" 2; let b := Expr.axis "b" 2; let c := Expr.axis "c" 1
+    let ins := [Expr.list [a, .flat (.list [b, c])], Expr.list [c, a]]
+    let eo := Expr.list [c, a, b]; let eo' := Expr.list [b, c, a]
+    (match okOpt (denoteElementwise "add" ins eo), okOpt (denoteElementwise "add" ins eo') with
+      | some t, some t' => t.shape == [1, 2, 2] && t'.shape == [2, 1, 2] && !Cell.beqL t.data t'.data
+      | _, _ => false) = true ∧
+    ∀ T, okOpt (denoteElementwise "add" ins eo) = some T →
+      ∃ T', okOpt (denoteElementwise "add" ins eo') = some T' ∧
+        ∃ plan, planInstr [shapeOf eo] (.transpose 0 [2, 0, 1]) = .ok plan ∧ runPlan symAlg [T] plan = T' :=
+  ⟨by decide +kernel, fun T h => denote_elementwise_permute_output "add" _ _ _ [2, 0, 1] T (by decide +kernel)
+    (by decide +kernel) (by decide +kernel) (by decide +kernel) rfl (by decide +kernel) h⟩
 
 /-! ### (c) Concatenations: the tie, and consistent renaming -/
 
